@@ -810,6 +810,8 @@ def run(ctx: Ctx) -> None:
     badp = check_pipes(ctx, pipes)
     ctx.traces_validated += len(pipes) - len(set(badp))
     goodp = [k for k in range(len(pipes)) if pipes[k]["expect"] != "either" and k not in set(badp) and pipes[k]["validate"]]
+    goodp = [k for k in goodp if pipes[k]["shape"] == "reduce2" and pipes[k]["edges"][0]["p"]["k"] != "NoAnn"
+             and pipes[k]["edges"][0]["c"]["k"] != "NoAnn"] or goodp       # prefer a checked, Array-wrapped edge
     if goodp:
         victim = goodp[len(goodp) // 2]
         lo = max(0, victim - 20)
@@ -818,7 +820,9 @@ def run(ctx: Ctx) -> None:
         base = check_pipes(ctx, window, corrupt=10**9, parallel=False)
         ctx.selftest("pipeline outcome corruption (one exported outcome flipped)",
                      sorted(set(got) - set(base)) == [victim - lo],
-                     f"victim={pipes[victim]['shape']} reported={sorted(set(got) - set(base))}")
+                     f"victim={pipes[victim]['shape']} {show(pipes[victim]['edges'][0]['p'])} -> "
+                     f"{show(pipes[victim]['edges'][0]['c'])} expect={pipes[victim]['expect']} "
+                     f"reported={sorted(set(got) - set(base))}")
     for k in (len(pipes) // 3, 2 * len(pipes) // 3):
         d = pipes[k]
         ctx.sample({"shape": d["shape"], "validate": d["validate"], "expect": d["expect"],
